@@ -1,30 +1,4 @@
-import Driver.Util
+import Driver.Loop
 import Driver.Areas
 /-! `driver <area>`: reads one JSON input per line on stdin, prints `{"id":…, "out":…}` per line. -/
-open Lean Driver
-
-partial def loop (h : IO.FS.Stream) (out : IO.FS.Stream) (f : Handler) : IO Unit := do
-  let line ← h.getLine
-  if line.isEmpty then return ()
-  let t := line.trimAscii.toString
-  if t.isEmpty then loop h out f else
-  let res : Json := match Json.parse t with
-    | .error e => Json.mkObj [("id", Json.null), ("out", Json.mkObj [("driver_error", Json.str e)])]
-    | .ok j =>
-      let id := (j.getObjVal? "id").toOption.getD Json.null
-      match f j with
-      | .ok o => Json.mkObj [("id", id), ("out", o)]
-      | .error e => Json.mkObj [("id", id), ("out", Json.mkObj [("driver_error", Json.str e)])]
-  out.putStrLn res.compress
-  loop h out f
-
-def main (args : List String) : IO UInt32 := do
-  match args with
-  | [area] =>
-    match Driver.areas.find? (·.1 == area) with
-    | some (_, f) =>
-      loop (← IO.getStdin) (← IO.getStdout) f
-      (← IO.getStdout).flush
-      return 0
-    | none => IO.eprintln s!"unknown area {area}"; return 2
-  | _ => IO.eprintln "usage: driver <area>"; return 2
+def main (args : List String) : IO UInt32 := Driver.mainWith "driver" Driver.areas args
